@@ -39,7 +39,7 @@ def perturb(v, mode):
     if isinstance(v, float) and np.isfinite(v):
         return v * 1.01 if mode == "scale" else v + 1.0
     if isinstance(v, int):
-        return v  # integer leaves are often counts/years used as keys or indices
+        return v + 1  # many statutory amounts are written as integers
     if isinstance(v, np.floating) and np.isfinite(v):
         return type(v)(v * 1.01)
     return v
@@ -126,6 +126,77 @@ def job(j):
     return info
 
 
+def perturb_inplace(v, depth=0):
+    """Edit every float leaf of a nested parameter object IN PLACE (what a user reform script does)."""
+    if isinstance(v, dict):
+        for k in list(v.keys()):
+            if k in ("rounding", "datum"):
+                continue
+            x = v[k]
+            if isinstance(x, dict):
+                perturb_inplace(x, depth + 1)
+            elif isinstance(x, np.ndarray) and x.dtype.kind == "f":
+                fin = np.isfinite(x)
+                x[fin] = x[fin] * 1.01
+            elif isinstance(x, float) and np.isfinite(x):
+                v[k] = x * 1.01
+            elif isinstance(x, int) and not isinstance(x, bool):
+                v[k] = x + 1
+
+
+def inplace_job(j):
+    """Reform edited in place on one environment handle must not leak into other handles
+    (the same handle's siblings, the environment set up before, an environment set up afterwards)."""
+    date, seed, tid, groups, work = j
+    rnd = random.Random(seed)
+    df, P = make_population(date, rnd, k=3)
+    info = {"tid": tid, "date": date, "n": len(df), "persons": P, "runs": [], "errors": [], "inplace": True}
+    p1, f1 = gs.fresh_env(date)
+    nodes, args = runs.nonderived_nodes(date, df)
+    try:
+        base, excluded = gs.compute_all(df, date, targets=nodes, params=p1, functions=f1, rounding=True)
+    except Exception as e:  # noqa: BLE001
+        info["base_error"] = f"{type(e).__name__}: {str(e)[:200]}"
+        return info
+    cols = list(base.columns)
+    tr = runs.RunTrace(work, f"c06i_{tid}")
+    tr.base(tid, base, cols, runs.dag_export(date, list(df)))
+    k = 0
+    for g in groups:
+        p2, f2 = gs.fresh_env(date)
+        perturb_inplace(p2[g])
+        for rel, fields, kw in (
+            ("reform", {"kind": "params", "id": g}, {"params": p2, "functions": f2}),
+            ("same", {"kind": "earlier-handle-after-inplace-reform", "id": g}, {"params": p1, "functions": f1}),
+        ):
+            k += 1
+            try:
+                res = gs.compute(df, date, targets=cols, **kw)
+            except Exception as e:  # noqa: BLE001
+                info["errors"].append({"run": k, **fields, "error": f"{type(e).__name__}: {str(e)[:120]}"})
+                continue
+            tr.run(tid, k, rel, res, list(res.columns), **fields)
+            info["runs"].append({"run": k, "rel": rel, **fields})
+    p3, f3 = gs.fresh_env(date)
+    k += 1
+    try:
+        res = gs.compute(df, date, targets=cols, params=p3, functions=f3)
+        tr.run(tid, k, "same", res, list(res.columns), kind="fresh-handle-after-inplace-reforms", id="")
+        info["runs"].append({"run": k, "rel": "same", "kind": "fresh-handle-after-inplace-reforms", "id": ",".join(groups)})
+    except Exception as e:  # noqa: BLE001
+        info["errors"].append({"run": k, "kind": "fresh-handle", "id": "", "error": f"{type(e).__name__}: {str(e)[:120]}"})
+    out = tr.judge()
+    info["bad"] = out["bad"]
+    info["changed"] = out["stats"]["changed"]
+    info["tlc_states"] = out["tlc_states"]
+    info["ncols"] = len(cols)
+    return info
+
+
+def _dispatch(j):
+    return inplace_job(j[1]) if j[0] == "inplace" else job(j[1])
+
+
 def run(tier):
     from _gettsim.config import INTERNAL_PARAMS_GROUPS
 
@@ -148,7 +219,15 @@ def run(tier):
             for i in range(0, len(gg), per):
                 jobs.append((date, rnd.randrange(1 << 30), t, gg[i : i + per], 4 if quick else 12, str(chk.work)))
                 t += 1
-    outs = pool_map(job, jobs)
+    jobs = [("plain", j) for j in jobs]
+    for date in dates[: (1 if quick else 4)]:
+        gg = groups[:]
+        rnd.shuffle(gg)
+        per = 5
+        for i in range(0, len(gg) if not quick else 10, per):
+            jobs.append(("inplace", (date, rnd.randrange(1 << 30), t, gg[i : i + per], str(chk.work))))
+            t += 1
+    outs = pool_map(_dispatch, jobs)
     total_changed = 0
     for info in outs:
         if "base_error" in info:
@@ -183,7 +262,7 @@ def run(tier):
         "per population: base run (all non-time-derived nodes); every parameter group perturbed (all float leaves x1.01 or +1, arrays included, rounding specs untouched), seeded rules replaced "
         "by `orig+1` / `not orig` with the same signature; deepcopy of params, cloned function, baseline re-run; distinct_nontrivial = distinct (date, kind, id) reforms"
     )
-    chk.assumptions += ["integer parameter leaves are not perturbed (years / counts used as keys)", "users of a group = nodes taking `<group>_params` or rounded with that group's rounding spec, taken from the run's own function table"]
+    chk.assumptions += ["integer leaves are perturbed by +1, float leaves by x1.01 / +1; reforms that make a rule raise are recorded, not judged", "users of a group = nodes taking `<group>_params` or rounded with that group's rounding spec, taken from the run's own function table"]
     chk.notes["dates"] = dates
     return chk.finish()
 
